@@ -40,6 +40,7 @@ class TablePred:
         self.table = {}
         self.calls = 0
         self.__name__ = name
+        self._pred = self          # marker looked for by sym.resolve_user_callable
 
     @staticmethod
     def key(obj):
@@ -488,7 +489,7 @@ def special_hints():
         # PEP 646 fixed unpacking, LiteralString, ABC / protocol leaves, two-parameter user generic over dict,
         # type variable bounded by a union, NewType of NewType
         ('tuple[int,*tuple[str,int]]', tuple[int, *tuple[str, int]]),
-        ('Tuple[Unpack[Tuple[int,str]],Unpack[Tuple[int]]]', Tuple[typing.Unpack[Tuple[int, str]], typing.Unpack[Tuple[int]]]),
+        ('Tuple[int,Unpack[Tuple[str,int]]]', Tuple[int, typing.Unpack[Tuple[str, int]]]),
         ('List[tuple[*tuple[int,str]]]', List[tuple[*tuple[int, str]]]),
         ('LiteralString', typing.LiteralString), ('List[LiteralString]', List[typing.LiteralString]),
         ('Hashable', typing.Hashable), ('Sized', typing.Sized), ('List[Hashable]', List[typing.Hashable]),
